@@ -148,7 +148,7 @@ def run_case(case):
         if not auto or not use_hb:
             return
         bt0 = boundaries[auto['first_boundary']:]
-        if any((not (b[1] == b[1])) for b in bt0) or any(bt0[i + 1][1] < bt0[i][1] for i in range(len(bt0) - 1)) or not (sim.dt > 0):
+        if any((not (b[1] == b[1])) for b in bt0) or any(bt0[i + 1][1] <= bt0[i][1] and bt0[i + 1][0] > bt0[i][0] for i in range(len(bt0) - 1)) or not (sim.dt > 0):
             counters['cadence_skipped_time_not_forward'] = counters.get('cadence_skipped_time_not_forward', 0) + 1
             return          # NaN / backward time (e.g. IAS15 fed coinciding particles): the forward schedule is not defined
         autos = [e for e in expected[auto['first_index']:] if e['kind'] == 'auto']
